@@ -4,6 +4,7 @@ import (
 	"fmt"
 	"go/token"
 	"go/types"
+	"strconv"
 	"strings"
 
 	"golang.org/x/tools/go/ssa"
@@ -226,6 +227,25 @@ func init() {
 				return *p
 			}
 		}
+	}
+	// strconv.ParseFloat: a symbolic argument is made concrete byte by byte (every feasible value
+	// is explored as a path decision), then the standard library decides
+	in["strconv.ParseFloat"] = func(fr *frame, a []value) value {
+		x := fr.i.x
+		var buf []byte
+		for _, b := range strBytes(a[0]) {
+			switch bv := b.(type) {
+			case uint8:
+				buf = append(buf, bv)
+			case *sym:
+				buf = append(buf, byte(x.Concretize(bv.E, "strconv.ParseFloat argument")))
+			}
+		}
+		f, err := strconv.ParseFloat(string(buf), int(asInt64(a[1])))
+		if err != nil {
+			return tuple{f, iface{fr.i.runtimeErrorString, err.Error()}}
+		}
+		return tuple{f, iface{}}
 	}
 	in[rtPrefix+"Reps"] = func(fr *frame, a []value) value { return 1 }
 	in[rtPrefix+"MapOrder"] = func(fr *frame, a []value) value {
